@@ -64,3 +64,91 @@ theorem norm_real (s : V3 ℝ) : norm (DOps.real e) s = .ok (√(s.nsq)) := by
   rw [Real.sqrt_eq_rpow]; norm_num
 
 end JF.Deriv
+
+namespace JF.Deriv
+open Real
+variable (e : ℝ → ℝ)
+
+/-! ### velocities and moved separations -/
+
+/-- `v` is a standard velocity: speed `sp > 0` along axis `d`, the other components zero -/
+def StdVel (v : V3 ℝ) (d : ℕ) (sp : ℝ) : Prop :=
+  0 < sp ∧ ((d = 0 ∧ v = ⟨sp, 0, 0⟩) ∨ (d = 1 ∧ v = ⟨0, sp, 0⟩) ∨ (d = 2 ∧ v = ⟨0, 0, sp⟩))
+
+/-- the separation (target minus active) after the ACTIVE unit has moved by `x` along axis `d` -/
+def V3.moved (s : V3 ℝ) (d : ℕ) (x : ℝ) : V3 ℝ :=
+  match d with
+  | 0 => ⟨s.x - x, s.y, s.z⟩
+  | 1 => ⟨s.x, s.y - x, s.z⟩
+  | _ => ⟨s.x, s.y, s.z - x⟩
+
+/-- a separation after one of its end points moved by `+x` along axis `d` (bending potential) -/
+def V3.pushed (s : V3 ℝ) (d : ℕ) (x : ℝ) : V3 ℝ := s.moved d (-x)
+
+/-- `s - t • v` -/
+def V3.subSmul (s v : V3 ℝ) (t : ℝ) : V3 ℝ := ⟨s.x - t * v.x, s.y - t * v.y, s.z - t * v.z⟩
+
+theorem subSmul_of_stdVel {v : V3 ℝ} {d : ℕ} {sp : ℝ} (hv : StdVel v d sp) (s : V3 ℝ) (t : ℝ) :
+    s.subSmul v t = s.moved d (sp * t) := by
+  obtain ⟨_, ⟨rfl, rfl⟩ | ⟨rfl, rfl⟩ | ⟨rfl, rfl⟩⟩ := hv <;>
+    simp [V3.subSmul, V3.moved, mul_comm]
+
+theorem analyseVelocity_of_stdVel {v : V3 ℝ} {d : ℕ} {sp : ℝ} (hv : StdVel v d sp) :
+    analyseVelocity (DOps.real e) v = .ok (d, sp) := by
+  have hb : ∀ x : ℝ, 0 < x → (x == (0 : ℝ)) = false := fun x hx => by simp [hx.ne']
+  obtain ⟨hsp, ⟨rfl, rfl⟩ | ⟨rfl, rfl⟩ | ⟨rfl, rfl⟩⟩ := hv <;>
+    simp [analyseVelocity, List.filter, V3.get, hb _ hsp, hsp]
+
+/-- completeness: `_analyse_velocity` succeeds ONLY on standard velocities -/
+theorem stdVel_of_analyseVelocity {v : V3 ℝ} {d : ℕ} {sp : ℝ}
+    (h : analyseVelocity (DOps.real e) v = .ok (d, sp)) : StdVel v d sp := by
+  obtain ⟨x, y, z⟩ := v
+  cases hbx : (x == (0 : ℝ)) <;> cases hby : (y == (0 : ℝ)) <;> cases hbz : (z == (0 : ℝ)) <;>
+    simp [analyseVelocity, List.filter, V3.get, hbx, hby, hbz] at h
+  all_goals
+    split_ifs at h with h0
+    simp only [Except.ok.injEq, Prod.mk.injEq] at h
+    obtain ⟨rfl, rfl⟩ := h
+    simp only [beq_iff_eq] at hbx hby hbz
+    simp [StdVel, h0, hbx, hby, hbz]
+
+/-- `StandardVelocityPotential.derivative`: chain rule `d/dt U(s - t v) = speed · d/dx U(s - x e_d)` -/
+theorem timeDerivative_hasDerivAt {U : V3 ℝ → ℝ} {svd : ℕ → Res ℝ} {v s : V3 ℝ} {d : ℕ} {sp r : ℝ}
+    (hv : StdVel v d sp) (hsvd : svd d = .ok r) (hU : HasDerivAt (fun x => U (s.moved d x)) r 0) :
+    timeDerivative (DOps.real e) v svd = .ok (r * sp) ∧
+      HasDerivAt (fun t => U (s.subSmul v t)) (r * sp) 0 := by
+  constructor
+  · simp [timeDerivative, analyseVelocity_of_stdVel e hv, hsvd, bind, Except.bind, pure, Except.pure]
+  · have hlin : HasDerivAt (fun t : ℝ => sp * t) sp 0 := by
+      simpa using (hasDerivAt_id (0 : ℝ)).const_mul sp
+    have hU' : HasDerivAt (fun x => U (s.moved d x)) r (sp * 0) := by simpa using hU
+    have := hU'.comp (0 : ℝ) hlin
+    simp only [subSmul_of_stdVel hv]
+    exact this
+
+theorem nsq_moved_hasDerivAt (s : V3 ℝ) (d : ℕ) :
+    HasDerivAt (fun x => (s.moved d x).nsq) (-2 * s.get d) 0 := by
+  have h1 : ∀ a : ℝ, HasDerivAt (fun x : ℝ => a - x) (-1) 0 := fun a => by
+    simpa using (hasDerivAt_id (0 : ℝ)).const_sub a
+  match d with
+  | 0 =>
+    have := (((h1 s.x).mul (h1 s.x)).add_const (s.y * s.y)).add_const (s.z * s.z)
+    convert this using 1; simp only [V3.get]; ring
+  | 1 =>
+    have := (((h1 s.y).mul (h1 s.y)).const_add (s.x * s.x)).add_const (s.z * s.z)
+    convert this using 1; simp only [V3.get]; ring
+  | (n + 2) =>
+    have := ((h1 s.z).mul (h1 s.z)).const_add (s.x * s.x + s.y * s.y)
+    convert this using 1; simp only [V3.get]; ring
+
+@[simp] theorem moved_zero (s : V3 ℝ) (d : ℕ) : s.moved d 0 = s := by
+  unfold V3.moved; split <;> simp
+
+/-- the euclidean norm along the motion of the active unit: `d/dx |s - x e_d| = - s_d / |s|` -/
+theorem norm_moved_hasDerivAt (s : V3 ℝ) (d : ℕ) (hs : s.nsq ≠ 0) :
+    HasDerivAt (fun x => √((s.moved d x).nsq)) (-(s.get d) / √(s.nsq)) 0 := by
+  have h := (nsq_moved_hasDerivAt s d).sqrt (by simpa using hs)
+  convert h using 1
+  simp only [moved_zero]; ring
+
+end JF.Deriv
